@@ -531,3 +531,89 @@ def init_post(S):
 
 
 c.ensures(init_post, "pool-holds-exactly-the-configured-ports-counters-full-throttles-distinct-25-verbs-bound-to-this-server")
+
+
+# ------------------------------------------------------------------------------------ Server.response_writer
+from pyvc.models_aio import QueueModel  # noqa: E402
+from pyvc.unit import LoopSpec  # noqa: E402
+
+
+def setup_response_writer(u):
+    it = u.it
+    sess = Session(u, mode="SEQ", ports=False)
+    srv = sess.server
+    stream = sess.conn.slots["command_connection"].fut.value
+    q = QueueModel("responses")
+
+    def head_of_queue(i, queue):
+        # whatever reply the handlers queued first (FIFO order of asyncio.Queue is T-aio)
+        item = (fresh("str", "code"), fresh("str", "info"), fresh("bool", "is_list"))[: 2 + i.ctx.choose(2, "reply-arity")]
+        i.ctx.event("got", item)
+        return item
+
+    it.hooks["queue_get"] = head_of_queue
+
+    def write_response(i, a, k):
+        def run():
+            i.ctx.event("write-begin", a, k)
+            i.suspend("write_response")
+            if i.ctx.choose(2, "control-write-outcome") == 1:
+                i.throw("ConnectionResetError")
+            i.ctx.event("written", a, k)
+
+        return Coro(run, "write_response")
+
+    srv.fields["write_response"] = Builtin("Server.write_response (recorded)", write_response)
+    f = it.getattr_(srv, "response_writer")
+    return f, [stream, q], {}, {"self": srv, "stream": stream, "queue": q, "head": {"ev": 0}}
+
+
+def rw_iteration_ok(it, vars, finished):
+    """one turn of the writer: takes the head of the queue, hands exactly that reply - unchanged, once - to
+    write_response on this session's control stream, and marks it done exactly once, after the write attempt, whether
+    the write succeeded, failed or was cancelled (the dispatcher's teardown joins the queue)"""
+    ev = it.ctx.events[vars["head"]["ev"]:]
+    got = [e for e in ev if e[0] == "got"]
+    begun = [e for e in ev if e[0] == "write-begin"]
+    done = [i for i, e in enumerate(ev) if e[0] == "task_done"]
+    if not got:
+        return len(begun) == 0 and len(done) == 0 and not finished
+    if len(got) != 1 or len(begun) != 1 or len(done) != 1:
+        return False
+    a, k = begun[0][1], begun[0][2]
+    item = got[0][1]
+    same = not k and len(a) == 1 + len(item) and a[0] is vars["stream"] and all(x is y for x, y in zip(a[1:], item))
+    wb = [i for i, e in enumerate(ev) if e[0] == "write-begin"][0]
+    return bool(same and wb < done[0])
+
+
+def rw_ghost(it, env, phase):
+    us = it.ctx.unit_state
+    if phase == "step":
+        it.ctx.check("Server.response_writer/iteration:one-reply-taken-written-unchanged-and-marked-done-once", z3.BoolVal(bool(rw_iteration_ok(it, us.vars, True))), info={"props": ["C05", "C06", "C12"]})
+
+
+def rw_havoc(it, env):
+    it.ctx.unit_state.vars["head"]["ev"] = len(it.ctx.events)
+
+
+def rw_exit(S, outcome):
+    it = S.it
+    if outcome[0] != "raise":
+        it.ctx.check("Server.response_writer/exit:never-returns", z3.BoolVal(False), info={"props": ["C05"]})
+        return
+    name = outcome[1].cls.name
+    ev = it.ctx.events[S.vars["head"]["ev"]:]
+    got = [e for e in ev if e[0] == "got"]
+    it.ctx.check(f"Server.response_writer/raises:{name}:reply-in-hand-is-marked-done-once", z3.BoolVal(bool(rw_iteration_ok(it, S.vars, False)) if got else not [e for e in ev if e[0] == "task_done"]), info={"props": ["C05", "C12"]})
+    if name not in ("CancelledError", "ConnectionResetError"):
+        it.ctx.check(f"Server.response_writer/raises:unexpected-{name}", z3.BoolVal(False), info={"props": ["C05", "C19"]})
+
+
+c = contract(SERVER, "Server.response_writer", props=["C05", "C06", "C12"])
+c.setup = setup_response_writer
+c.loops = {("Server.response_writer", 0): LoopSpec(invariants=[], havoc=rw_havoc, ghost=rw_ghost)}
+c.exit_hook = rw_exit
+c.raises = {"BaseException": []}
+c.cancellable = True
+c.assumptions.append("T-aio Queue: get() returns the items in the order they were put (FIFO), each once; the unit quantifies over an arbitrary head item")
